@@ -14,6 +14,7 @@ import (
 	"sort"
 	"strconv"
 	"strings"
+	"sync"
 	"time"
 
 	d128 "github.com/woodsbury/decimal128"
@@ -56,13 +57,60 @@ func classify(res []string) string {
 	return "value"
 }
 
+// Watchdog: every property presupposes that the call returns. A call of the library that is still running after the limit
+// (VERIF_WATCHDOG_S, default 180 s; the slowest legitimate call takes milliseconds) is reported as the protocol line
+// `<drm> <op> <args> = HANG`, which the oracle turns into a violation with that input instead of waiting for the
+// shard's time limit. The main goroutine is inside the library at that point and does not touch `out`.
+var (
+	wdMu     sync.Mutex
+	wdLine   string
+	wdStart  time.Time
+	wdFinish = func() {}
+)
+
+func wdEnter(drm uint8, op string, args []string) {
+	wdMu.Lock()
+	wdLine = fmt.Sprintf("%d %s %s", drm, op, strings.Join(args, " "))
+	wdStart = time.Now()
+	wdMu.Unlock()
+}
+
+func wdLeave() {
+	wdMu.Lock()
+	wdLine = ""
+	wdMu.Unlock()
+}
+
+func watchdog() {
+	limit := 180 * time.Second
+	if v, err := strconv.Atoi(os.Getenv("VERIF_WATCHDOG_S")); err == nil && v > 0 {
+		limit = time.Duration(v) * time.Second
+	}
+	for {
+		time.Sleep(500 * time.Millisecond)
+		wdMu.Lock()
+		l, s := wdLine, wdStart
+		wdMu.Unlock()
+		if l != "" && time.Since(s) > limit {
+			out.WriteString(l + " = HANG\n")
+			st.Evaluations++
+			st.Kinds["HANG"]++
+			out.Flush()
+			wdFinish()
+			os.Exit(0)
+		}
+	}
+}
+
 // emit runs op through the hook dispatcher and prints the line.
 func emit(drm uint8, op string, args []string) []string {
 	d128.DefaultRoundingMode = d128.RoundingMode(drm)
 	if debug {
 		fmt.Fprintf(os.Stderr, "CALL %d %s %s\n", drm, op, strings.Join(args, " "))
 	}
+	wdEnter(drm, op, args)
 	res := d128.VerifCall(op, args)
+	wdLeave()
 	d128.DefaultRoundingMode = d128.ToNearestEven
 	record(drm, op, args, res)
 	return res
@@ -392,6 +440,21 @@ func main() {
 	defer out.Flush()
 	g := &G{r: rand.New(rand.NewSource(*seed))}
 	start := time.Now()
+	writeStats := func() {
+		st.Distinct = len(st.seen)
+		if *statsFile != "" {
+			b, _ := json.MarshalIndent(struct {
+				*stats
+				Seed  int64   `json:"seed"`
+				WallS float64 `json:"wall_s"`
+			}{st, *seed, time.Since(start).Seconds()}, "", " ")
+			os.WriteFile(*statsFile, b, 0o644)
+		}
+	}
+	wdFinish = writeStats
+	if *mode != "race" {
+		go watchdog()
+	}
 	switch *mode {
 	case "kernel":
 		kernelMode(g, *n, *ops)
@@ -406,15 +469,7 @@ func main() {
 		fmt.Fprintln(os.Stderr, "unknown mode")
 		os.Exit(2)
 	}
-	st.Distinct = len(st.seen)
-	if *statsFile != "" {
-		b, _ := json.MarshalIndent(struct {
-			*stats
-			Seed  int64   `json:"seed"`
-			WallS float64 `json:"wall_s"`
-		}{st, *seed, time.Since(start).Seconds()}, "", " ")
-		os.WriteFile(*statsFile, b, 0o644)
-	}
+	writeStats()
 }
 
 // replayMode re-runs protocol lines given as arguments (`drm op args…`), printing fresh results.
